@@ -73,6 +73,11 @@ def fds() -> typing.Dict[int, str]:
 def build_site(sc: Scratch):
     t = Tree()
     t.file("small.txt", "small document\n")
+    # the same kinds of object under names that mean something to %-formatting, str.format and log parsers (a failure
+    # is reported with the request it belongs to)
+    t.file("50%off %s %(x)d {0}.txt", "odd name\n" * 600)
+    for i in range(4):
+        t.file("rates 5%%d {x}/entry%d.txt" % i, "e\n")
     t.file("large.bin", trees.gen_content(__import__("random").Random(1), 70000, "binary"))
     for i in range(14):
         t.file("menu/entry%02d.txt" % i, "e\n")
@@ -100,6 +105,9 @@ KINDS = [
     ("large-document", b"/large.bin", ["gopher", "gopherps+", "https", "gemini", "spartan"]),
     ("menu", b"/menu", ["gopher", "gophers", "gopherp+", "gopherp$", "http", "https", "wap", "gemini", "spartan"]),
     ("menu-ending-in-an-abstract", b"/menu2", ["gopher", "gophers", "gopherp+", "http", "wap", "gemini", "spartan"]),
+    ("document-odd-name", b"/50%off %s %(x)d {0}.txt", ["gopher", "gopherp+", "http", "gemini", "spartan"]),
+    ("menu-odd-name", b"/rates 5%d {x}", ["gopher", "gopherp$", "http", "spartan"]),
+    ("error-page-odd-name", b"/no such 100% %s {0}", ["gopher", "http", "gemini"]),
     ("error-page", b"/does-not-exist", ["gopher", "gopherp+", "http", "wap", "gemini", "spartan", "https"]),
     ("gopherplus-item-info", b"/small.txt", ["gopherp!"]),
     ("gopherplus-dir-info", b"/menu", ["gopherp$", "gopherps$"]),
